@@ -11,11 +11,13 @@
     ([C16_absent_as_empty_refuted], with a predicate the public delete API produces), true when
     every referenced tag is present or the predicate is positive.
 
-    FULL STATEMENT of the property (for every series, including measurement names containing
-    '=' or any component ending in a backslash):
+    FULL STATEMENT of the property (for every series, including any component ending in a
+    backslash):
         forall p name env, wf_pred p -> matches p (make_key name env) = holds p env.
-    It is REFUTED by the faithful model and by the real code:
-      - [C16_equals_in_measurement_refuted]  (finding: measurement-name-with-equals-parsed-as-tag)
+    Measurement names containing '=' are covered by [C16_matcher_correct] since the repair of
+    finding measurement-name-with-equals-parsed-as-tag (Matches now skips the measurement
+    segment; the former witness is [C16_equals_in_measurement_fixed]).
+    The full statement is still REFUTED by the faithful model and by the real code:
       - [C16_trailing_backslash_refuted]     (finding: series-component-ending-in-backslash;
                                               consequence of C11's lp-backslash-not-escaped)
       - [C16_field_separator_refuted]        (finding: tag-contains-field-separator)
@@ -24,7 +26,7 @@ From Verif Require Import Base.Prelude Model.C16 Proofs.C16 Proofs.C16_key Proof
 
 (** For every regex oracle, every predicate built from tag refs / literals / regexes with
     = != startsWith < <= > >= =~ !~ joined by AND / OR (each comparison mentioning a tag), and
-    every series with distinct tag keys, non-empty values, no '=' in the measurement name, no
+    every series with distinct tag keys, non-empty values (any measurement name, '=' included), no
     component ending in a backslash and no "#!~#" in the key — escaped spaces, commas and
     equals signs in names, keys and values included — the compiled matcher (pop-tag walk over
     the key bytes in either variant, memoised three-valued update, early exit) answers exactly
@@ -102,21 +104,22 @@ Proof.
 Qed.
 Print Assumptions C16_absent_as_empty_partial.
 
-(** ** Refutations of the full statement (each reproduced on the real code by the driver) *)
+(** ** Refutations of the full statement (each reproduced on the real code by the driver),
+       and the repaired one *)
 
-(** measurement "a=b": the first key segment [a=b] is popped as tag a = b, so the predicate
-    a = "b" (in the public API grammar) matches a series that has no tag a. *)
-Theorem C16_equals_in_measurement_refuted :
-  exists p name tags,
-    api_pred p = true /\ wf_env ((MTAG, name) :: tags) = true /\ has_eq name = true /\
-    forall rm, matches rm p (engine_key name tags) = true /\
-               holds rm p ((MTAG, name) :: tags) = false.
+(** measurement "a=b", predicate a = "b", series without tag a: the former witness of finding
+    measurement-name-with-equals-parsed-as-tag (the first key segment [a=b] used to be popped
+    as tag a = b).  With the measurement segment skipped it is an ordinary well-formed series:
+    no match, as [holds] says. *)
+Example C16_equals_in_measurement_fixed :
+  api_pred w_eq_pred = true /\ has_eq w_eq_name = true /\
+  wf_key w_eq_name ((MTAG, w_eq_name) :: [(b_t, b_1)]) = true /\
+  forall rm, matches rm w_eq_pred (engine_key w_eq_name [(b_t, b_1)]) = false /\
+             holds rm w_eq_pred ((MTAG, w_eq_name) :: [(b_t, b_1)]) = false.
 Proof.
-  exists w_eq_pred, w_eq_name, [(b_t, b_1)].
-  split; [reflexivity|]. split; [vm_compute; reflexivity|]. split; [reflexivity|].
+  split; [reflexivity|]. split; [reflexivity|]. split; [vm_compute; reflexivity|].
   intros rm. split; vm_compute; reflexivity.
 Qed.
-Print Assumptions C16_equals_in_measurement_refuted.
 
 (** tag value "a\" : MakeKey does not escape the backslash, the following comma looks escaped *)
 Theorem C16_trailing_backslash_refuted :
